@@ -24,7 +24,7 @@ LINE_FUNCS = ['riemannian_projection', 'riemannian_gradient', '_delta2cores']
 def cases(tier, seed):
     rng = random.Random('C16|%d' % seed)
     cs = []
-    n = 500 if tier == 'quick' else 4000
+    n = 1500 if tier == 'quick' else 15000
     for i in range(n):
         d = rng.choice([2, 2, 3, 3, 4, 5])
         ttm = i % 4 == 3
